@@ -257,6 +257,47 @@ func vfHammerBatch(R *verifrt.Report, ci int, seed uint64, workers int, dur time
 						op = 90 // Publish
 					}
 				}
+				if focus == "futures" && r != nil {
+					switch f := rng.Intn(100); {
+					case f < 30:
+						// one future, 3-8 concurrent callers, racing replies and timeout
+						vfHamFutureStorm(R, ci, sys, r, rng)
+						ops[2].Add(1)
+						continue
+					case f < 50:
+						// a dying asker: the actor takes out a few futures with staggered short timeouts (half of them never
+						// answered) and then fails, kills itself or is killed from outside, so that its sweep of outstanding futures
+						// coincides with the timers and replies that complete and deregister them from other goroutines
+						if rng.Bool() { // a fresh asker (certainly alive when it asks) or an existing one
+							a := &vfHamActor{depth: 0, decision: vfAllDecisions[rng.Intn(5)]}
+							ref, err := sys.ActorOf(a, vfHamOptions(a)...)
+							if err != nil {
+								continue
+							}
+							ops[0].Add(1)
+							if rng.Intn(4) == 0 {
+								addRef(ref)
+							}
+							r = ref
+						}
+						for i, k := 0, 1+rng.Intn(5); i < k; i++ {
+							sys.Tell(r, &vfHamMsg{Op: "ask", To: pick(rng)})
+						}
+						for i, k := 0, rng.Intn(300); i < k; i++ {
+							runtime.Gosched()
+						}
+						switch rng.Intn(4) {
+						case 0:
+							sys.Tell(r, &vfHamMsg{Op: "panic"})
+						case 1:
+							sys.Tell(r, &vfHamMsg{Op: "killself"})
+						default:
+							sys.Kill(r, rng.Bool(), "vf-ham")
+						}
+						ops[1].Add(1)
+						continue
+					}
+				}
 				switch {
 				case op < 12 || r == nil:
 					a := &vfHamActor{depth: 0, decision: vfAllDecisions[rng.Intn(5)], subscribe: focus == "eventstream"}
@@ -466,7 +507,7 @@ func TestVerif_hammer(t *testing.T)     { vfHammer(t, "hammer") }
 func TestVerif_hammerfast(t *testing.T) { vfHammer(t, "hammerfast") }
 
 func vfHammer(t *testing.T, check string) {
-	R := verifrt.NewReport(check, "(hammer: under the race detector; hammerfast: the same batches without it, i.e. at full speed, where the runtime's own concurrent-map checks and crashes are the monitor) real-time batches under the race detector: 8-64 goroutines call only what is documented as concurrency-safe (ActorSystem.ActorOf/Tell/Ask/Kill/FindActor, EventStream Subscribe/Unsubscribe/UnsubscribeAll/Publish with the system's stream, every Future method, ActorRef methods on shared refs, ParseRef; a third of the batches concentrates on the event stream, a third on futures: each Ask's future is closed / awaited / piped by 3-8 goroutines released together while one or two replies and a timeout of about the reply latency race with them, and every observation of one future must be the same) for 1.5-4 s while the actors spawn children from their own handlers (depth <= 3), panic / Failed under all five non-escalating decisions with one-for-one and one-for-all strategies, and kill themselves; one child process per batch. Monitors: race reports with a vivid frame (parsed by the driver), process-fatal errors, registry == set reachable from the root through children tables in 3 consecutive samples after the callers stopped, Stop returns. non-trivial+distinct = batches (each a different PRNG stream and worker count)")
+	R := verifrt.NewReport(check, "(hammer: under the race detector; hammerfast: the same batches without it, i.e. at full speed, where the runtime's own concurrent-map checks and crashes are the monitor) real-time batches under the race detector: 8-64 goroutines call only what is documented as concurrency-safe (ActorSystem.ActorOf/Tell/Ask/Kill/FindActor, EventStream Subscribe/Unsubscribe/UnsubscribeAll/Publish with the system's stream, every Future method, ActorRef methods on shared refs, ParseRef; a third of the batches concentrates on the event stream, a third on futures: each Ask's future is closed / awaited / piped by 3-8 goroutines released together while one or two replies and a timeout of about the reply latency race with them, and every observation of one future must be the same; in the same batches fresh and existing actors take out 1-5 futures of their own with staggered timeouts of 1-40 ms, half never answered, and then panic, kill themselves or are killed, so that the sweep of a dying asker's futures coincides with the timers and replies completing them) for 1.5-4 s while the actors spawn children from their own handlers (depth <= 3), panic / Failed under all five non-escalating decisions with one-for-one and one-for-all strategies, and kill themselves; one child process per batch. Monitors: race reports with a vivid frame (parsed by the driver), process-fatal errors, registry == set reachable from the root through children tables in 3 consecutive samples after the callers stopped, Stop returns. non-trivial+distinct = batches (each a different PRNG stream and worker count)")
 	defer R.Flush()
 	n := verifrt.EnvInt("VERIF_N", 6)
 	dur := 2 * time.Second
